@@ -360,7 +360,11 @@ def post_selection_analyzer(
         if gate is None:
             post_selection.append(False)
             continue
-        can_ps = not all(q in has_ps for q in gate)
+        # A post-selected gate can only fail by moving photons between its
+        # qubits, so with n qubits it is enough, and necessary, that n - 1 of
+        # them are not acted on by a later multi-qubit gate
+        n_free = sum(q not in has_ps for q in gate)
+        can_ps = n_free >= len(gate) - 1
         post_selection.append(can_ps)
         has_ps += gate
     # Return if a gate can have post-selection and all modes which will require
